@@ -301,18 +301,20 @@ inductive GEv where
   deriving Repr
 
 /-- `ReplicatedShardedState::execute`: a multi-key DEL is executed key by key (one shard command,
-    hence one delta, per key); every other command goes to the shard actor as it is -/
+    hence one delta, per key); since fix e29f660 ("the replicated front end executes MSET / MGET /
+    multi-key EXISTS key by key") an MSET is one `SET` per pair — each pair goes to its own shard
+    and ships its own delta (MGET / EXISTS are reads: one executor per node in this model, nothing
+    to split); every other command goes to the shard actor as it is -/
 def splitCmd : Cmd → List Cmd
   | .del ks => if ks.length > 1 then ks.map (fun k => .del [k]) else [.del ks]
+  | .mset kvs => kvs.map (fun p => .set p.1 p.2 .always .none false)
   | c => [c]
 
-/-- `ReplicatedShardedState::execute` AFTER the repair prepared on fixes-glue-s3 ("the replicated
-    front end executes MSET / MGET / multi-key EXISTS key by key"): an MSET is one `SET` per pair —
-    each pair goes to its own shard and ships its own delta.  (MGET / EXISTS are reads: one
-    executor per node in this model, nothing to split.)  The current tree is `splitCmd`. -/
-def splitCmdFixed : Cmd → List Cmd
-  | .mset kvs => kvs.map (fun p => .set p.1 p.2 .always .none false)
-  | c => splitCmd c
+/-- the front end BEFORE e29f660: an MSET went whole to the first key's shard actor, which does not
+    record it (the object of `C06.mset_unsplit_counterexample`) -/
+def splitCmdPre : Cmd → List Cmd
+  | .del ks => if ks.length > 1 then ks.map (fun k => .del [k]) else [.del ks]
+  | c => [c]
 
 namespace GCluster
 
@@ -356,12 +358,12 @@ def restart (g : GCluster) (i : Nat) : GCluster :=
       nodes := g.nodes.set i (Node.init nd.rs.rid nd.rs.causal)
       log := g.log.filter (fun a => a.node ≠ i) }
 
-/-- the step of the repaired front end (`splitCmdFixed`) -/
-def stepFixed (g : GCluster) : GEv → GCluster
-  | .client i c => (splitCmdFixed c).foldl (fun g c' => g.clientOne i c') g
+/-- the step of the front end before e29f660 (`splitCmdPre`) -/
+def stepPre (g : GCluster) : GEv → GCluster
+  | .client i c => (splitCmdPre c).foldl (fun g c' => g.clientOne i c') g
   | e => g.step e
 
-def runFixed (g : GCluster) (evs : List GEv) : GCluster := evs.foldl stepFixed g
+def runPre (g : GCluster) (evs : List GEv) : GCluster := evs.foldl stepPre g
 
 /-- the replication-state layer of the cluster (the object of layer 1) -/
 def proj (g : GCluster) : Cluster := { nodes := g.nodes.map (·.rs), sent := g.sent, log := g.log }
